@@ -3,6 +3,7 @@ import re
 
 from . import core
 from . import formgen as fg
+from . import rslex
 
 PROP = 'C13'
 RULE = ('schemas reached by seeded editing histories (definitions edited to mention LATER constituents, MoveBefore '
@@ -16,7 +17,7 @@ RULE = ('schemas reached by seeded editing histories (definitions edited to ment
         'whole-identifier substitution, each dependency edge must be the image of a source edge (no name that resolved in '
         'the source is unresolved in the result), and status / typification / value class must be preserved up to the '
         'map; the source schema must be unchanged. Distinct = hash of (source definitions, selection, kind).')
-ASSUMPTIONS = ['dependency edges of the SOURCE are taken as reported by the schema graph (their correctness is C07)',
+ASSUMPTIONS = ['dependency edges of the SOURCE are derived in Python from the definitions (reference lexical model: whole-identifier mentions of existing aliases)',
                'a selection that the operation refuses (IsCorrectlyDefined false) is not judged beyond "no result, source unchanged": '
                'the property does not say which selections must be accepted',
                'when the source has an unresolved name that the renumbering introduces into the result (capture of a dangling name), '
@@ -45,6 +46,10 @@ def build(rnd, hist_id):
             ops.append({'op': 'form.op', 'f': 'a', 'k': 'setexpr', 'uid': {'idx': i}, 'text': rnd.choice(['$[%d]', 'ℬ($[%d])', '$[%d]∪$[%d]', '$[%d]×$[%d]']).replace('%d', str(rnd.randrange(i, span + 2)))})
         else:
             ops.append(fg.edit_op(rnd, 'a', span=span, other='b', weights=WEIGHTS))
+    if rnd.random() < 0.3:
+        # the last edit before the extraction is a rename WITHOUT substitution (old mentions dangle, the new name may capture others)
+        ops.append({'op': 'form.op', 'f': 'a', 'k': 'setalias', 'uid': {'idx': rnd.randrange(span)}, 'subst': False,
+                    'alias': rnd.choice(fg.DANGLING + ['X1', 'X2', 'X3', 'D1', 'D2', 'S1', 'X9', 'D9'])})
     plan = [None] * len(ops)
     for _ in range(rnd.randint(3, 8)):
         r = rnd.random()
@@ -123,7 +128,14 @@ def judge_extract(res, cs, op, ev):
     rs = ev['result']
     ritems = {int(u): it for u, it in rs['items'].items()}
     rorder = rs['list']
-    inputs = {u: it['inputs'] for u, it in items.items()}
+    # dependency edges are derived from the definitions themselves (whole-identifier mentions of existing aliases), not taken
+    # from the schema's cached graph: a stale graph must not become the oracle
+    by_alias = {it['alias']: u for u, it in items.items()}
+    inputs = {u: sorted({by_alias[m] for m in rslex.mentioned(it['def']) if m in by_alias}) for u, it in items.items()}
+    for u in list(items):
+        if sorted(items[u]['inputs']) != inputs[u]:
+            res.count('reported_edges_differ')
+        items[u] = dict(items[u], inputs=inputs[u])
     if kind == 'basis':
         lo = hi = closure(args, inputs)
     else:
